@@ -36,6 +36,10 @@ class HelpResolver(DefaultResolver):
         config.enable_lenient_args_parsing()
 
         try:
+            # The arguments may already have been parsed (strictly) while the
+            # default sub-command was looked up
+            result = ResolveResult(result.command, result.raw_args)
+
             return super(HelpResolver, self).create_resolved_command(result)
         finally:
             # Leave the configuration as it was found, also on errors
